@@ -33,6 +33,9 @@ def rebase(name):
         if rc:
             return name, 'cannot-rebase', out[-300:]
         sh('find . -name "*.orig" -delete; find . -name "*.rej" -delete', wt)
+        rci, _ = sh([PY, '-c', 'import fastparquet'], wt, env)
+        if rci:
+            return name, 'patched-package-does-not-import (rebase by hand)', ''
         rc1, o1 = sh([PY, demo], wt, env)
         rcd, diff = sh('git diff -- fastparquet', wt)
         if rc0 != 0 or rc1 == 0:
